@@ -1050,7 +1050,8 @@ impl SubRule {
         }
 
         if match_begin.is_none() {
-            if let ParseElement::SyllBound = states.last().unwrap().kind {
+            // the end of the word is an insertion point only if everything before `_` can hold there
+            if states.iter().all(|s| s.kind == ParseElement::SyllBound) {
                 let sy = word.syllables.len() - 1;
                 let sg = word.syllables[sy].segments.len();
                 Ok(Some(SegPos::new(sy, sg)))
@@ -1106,7 +1107,8 @@ impl SubRule {
         }
 
         if match_begin.is_none() {
-            if let ParseElement::WordBound | ParseElement::SyllBound | ParseElement::Structure(..) = states.first().unwrap().kind {
+            // the end of the word is an insertion point only if everything after `_` can hold there
+            if states.iter().all(|s| matches!(s.kind, ParseElement::WordBound | ParseElement::SyllBound)) {
                 let sy = word.syllables.len() - 1;
                 let sg = word.syllables[sy].segments.len();
                 Ok(Some(SegPos::new(sy, sg)))
